@@ -233,12 +233,24 @@ def cases(tier):
                 L = len(build(LenCtx(), kind, cfg, var).ref)
                 base = "%s-%s-%s" % (kind, vn, cname(cfg))
                 cs.append(Case(base + "-clean", kind, h_pdu, dict(kind=kind, cfg=cfg, var=var, o=None), bounds="no corruption"))
+                offs = [o for o in range(8 * L) if free_bit(o, L, CFDP_EXCL)]
                 if cfg == cfgs[0]:
+                    # flags handed over as plain 1 / True instead of enum members
+                    for c2 in ((1, 1, 1, 0), (2, 2, 1, 1)):
+                        cs.append(Case("%s-%s-%s-plainflags-clean" % (kind, vn, cname(c2)), kind, h_pdu,
+                                       dict(kind=kind, cfg=c2, var=dict(var, plain=True), o=None),
+                                       bounds="no corruption, CRC / large-file flags given as bool, the others as plain integers"))
+                    # the factory route for the windows that touch the octet it dispatches on (the directive code); the thorough
+                    # tier runs every window through the factory
+                    if tier == "quick" and vn == vs[0][0] and kind != "filedata":
+                        hl = 4 + 2 * cfg[0] + cfg[1]
+                        for o in [o for o in offs if 8 * hl - 15 <= o <= 8 * hl + 7]:
+                            cs.append(Case("%s-factory-o%03d" % (base, o), kind, h_pdu, dict(kind=kind, cfg=cfg, var=var, o=o, factory=True),
+                                           bounds="via PduFactory.from_raw, window at %d (touches the directive code)" % o))
                     # every uncorrupted PDU passes and carries its trailer: all header shapes, not only the one corrupted above
                     for c2 in [c for c in ((1, 1, 1, 1), (2, 4, 1, 0), (8, 8, 1, 1), (4, 2, 1, 1)) if c not in cfgs]:
                         cs.append(Case("%s-%s-%s-clean" % (kind, vn, cname(c2)), kind, h_pdu, dict(kind=kind, cfg=c2, var=var, o=None),
                                        bounds="no corruption, entity-ID/sequence widths %d/%d, large-file flag %d" % (c2[0], c2[1], c2[3])))
-                offs = [o for o in range(8 * L) if free_bit(o, L, CFDP_EXCL)]
                 for o in offs:
                     cs.append(Case("%s-o%03d" % (base, o), kind, h_pdu, dict(kind=kind, cfg=cfg, var=var, o=o),
                                    bounds="%s PDU %s (%d octets), all parameter values, error window at bit offset %d" % (kind, var, L, o)))
